@@ -77,7 +77,7 @@ def run(ctx: Ctx) -> None:
                  f"ClaimsAlternate, OnlyOwnerMoves, NoParallelBody hold")
     # ---- T ---------------------------------------------------------------------
     pre = 2 if ctx.quick else 3
-    max_exec = 1500 if ctx.quick else 40000
+    max_exec = 1500 if ctx.quick else 8000
     jobs = []
     for fam in ("mem", "sql"):
         for scn in scenarios(fam):
